@@ -1,13 +1,19 @@
 #!/bin/bash
-# negative controls: benign changes must never produce a VIOLATION
-cd /verif
+# Negative controls (development helper): behaviour-preserving changes must never produce a VIOLATION.
+#   tool/negeval.sh <property-id>...        env NEGS="seeded_neg/X.diff ..." selects patches (default: all)
+# Works on a scratch worktree of /repo (created on demand, removed with `git -C /repo worktree remove --force /tmp/repo_neg`)
+# and writes evidence to a scratch directory; the replayer, Kani and canaries are skipped (the verdict of Verus is what is tested).
+cd "$(dirname "$0")/.." || exit 2
+WT=${NEG_WORKTREE:-/tmp/repo_neg}
+[ -d "$WT" ] || git -C /repo worktree add --detach "$WT" HEAD >/dev/null 2>&1 || exit 2
+mkdir -p /tmp/vwork_neg/evidence
 for f in ${NEGS:-seeded_neg/*.diff}; do
   n=$(basename $f .diff)
-  git -C /tmp/repo_neg checkout -q -- .
-  git -C /tmp/repo_neg apply /verif/$f || { echo "$n PATCH FAILS"; continue; }
+  git -C "$WT" checkout -q -- .
+  git -C "$WT" apply "$PWD/$f" || { echo "$n PATCH FAILS"; continue; }
   for id in "$@"; do
-    out=$(VERIF_EVIDENCE_DIR=/tmp/vwork_neg/evidence VERIF_REPO=/tmp/repo_neg VERIF_NO_KANI=1 VERIF_NO_REPLAYER=1 VERIF_NO_CANARY=1 VERIF_WORK=/tmp/vwork_neg ./check $id 2>&1 | grep -E "^(VIOLATION|UNDECIDED|OK)" | head -2 | cut -c1-220)
+    out=$(VERIF_EVIDENCE_DIR=/tmp/vwork_neg/evidence VERIF_REPO="$WT" VERIF_NO_KANI=1 VERIF_NO_REPLAYER=1 VERIF_NO_CANARY=1 VERIF_WORK=/tmp/vwork_neg ./check $id 2>&1 | grep -E "^(VIOLATION|UNDECIDED|OK)" | head -2 | cut -c1-220)
     echo "$n $id :: $out"
   done
 done
-git -C /tmp/repo_neg checkout -q -- .
+git -C "$WT" checkout -q -- .
